@@ -47,6 +47,30 @@ EXTRA = [
 FULL = CORE + EXTRA
 TIMING = [("folder_scan", "d"), ("folder_restore", "d"), ("os_scan", None), ("sw_fix", "db"), ("sw_compromise", "db"),
           ("tick", None), ("file_delete", "a"), ("shutdown", None)]
+T = ("tick", None)
+# hand-written words for the interleavings the design names; each is run with all four durations equal to 0,1,2,3
+SCRIPTED = {
+    "db-restore-twice-after-delete": [("sql_encrypt", None), ("file_scan", "dbf"), ("sw_fix", "db"), T, T, T, ("file_scan", "dbf"),
+                                      ("file_delete", "dbf"), ("sw_fix", "db"), T, T, T, ("file_scan", "dbf")],
+    "compromise-during-fixing": [("sw_compromise", "db"), ("sw_fix", "db"), T, ("sw_compromise", "db"), T, T, ("sw_fix", "db"), T, T, T,
+                                 ("sw_scan", "db")],
+    "overlapping-folder-scans": [("folder_scan", "d"), T, ("file_corrupt", "a"), ("folder_scan", "d"), T, T, T, T],
+    "overlapping-node-scans": [("os_scan", None), T, ("sw_compromise", "cli"), ("os_scan", None), T, T, T, T],
+    "overlapping-folder-restores": [("file_delete", "a"), ("folder_restore", "d"), T, ("file_corrupt", "b"), ("folder_restore", "d"), T, T, T, T],
+    "power-loss-mid-operation": [("sw_compromise", "db"), ("sw_fix", "db"), ("folder_scan", "d"), ("folder_restore", "d"), ("os_scan", None), T,
+                                 ("shutdown", None), T, T, ("startup", None), T, T, T, T, T, ("sw_scan", "db")],
+    "dos-then-fix": [("peer_connect", None), ("peer_connect", None), ("sw_scan", "db"), ("peer_disconnect", None), ("sw_fix", "db"), T, T, T,
+                     ("peer_connect", None), ("sw_scan", "db")],
+    "db-file-deleted-folder-restore": [("sql_delete", None), ("file_scan", "dbf"), ("file_delete", "dbf"), ("folder_restore", "dbd"), T, T, T, T,
+                                       ("file_scan", "dbf"), ("folder_scan", "dbd"), T, T, T, T],
+    "pause-during-fixing": [("sw_compromise", "db"), ("sw_fix", "db"), ("svc_pause", "db"), T, T, ("svc_resume", "db"), T, ("sw_scan", "db")],
+    "stop-start-compromised": [("sw_compromise", "db"), ("svc_stop", "db"), ("svc_start", "db"), ("sw_scan", "db"), ("shutdown", None), T, T, T,
+                               ("startup", None), T, T, T, ("sw_scan", "db"), ("os_scan", None), T, T, T, T],
+    "install-compromise-fix-remove": [("app_install", "bot"), ("sw_compromise", "bot"), T, T, T, ("sw_scan", "bot"), ("sw_fix", "bot"), T, T, T,
+                                      ("sw_scan", "bot"), ("app_remove", "bot")],
+    "folder-delete-restore-with-pending-scan": [("folder_scan", "d"), T, ("folder_delete", "d"), T, ("fs_restore_folder", "d"), T, T, T, T,
+                                                ("folder_scan", "d"), T, T, T, T],
+}
 TIMED_MECHS = ("fix", "folder-scan", "folder-restore", "node-scan")
 
 _am = None
@@ -738,7 +762,9 @@ class Check:
             "scan / repair / restore / delete / fs-level restore, node OS scan, shutdown, startup, tick, SQL DELETE / ENCRYPT and "
             "connections from the peer, application install / remove. Words: every word of length 3 over a 24-op core "
             "alphabet at one (thorough: four) duration setting(s); every word of length 4 (durations 1,2; length 3 for 0,3; thorough: 5) "
-            "over an 8-op timing alphabet with all four durations equal to 0,1,2,3; every pair over the 51-op alphabet; random words of length 30 with random durations in {0..3} (power {0..2}). "
+            "over an 8-op timing alphabet with all four durations equal to 0,1,2,3; every pair over the 51-op alphabet; 12 hand-written "
+            "words (database restore twice with a delete in between, compromise during FIXING, overlapping scans / restores, power "
+            "loss mid-operation, DoS then fix, ...) x durations 0..3 x power (0,0),(1,1) x backup server on/off; random words of length 30 with random durations in {0..3} (power {0..2}). "
             "Every word is followed by a drain (node back ON, max duration + 2 ticks). Non-trivial word: at least one "
             "visible change inside a scan and one explained true-health change or timed completion; distinct by (durations, word).")
     assumptions = [
@@ -770,6 +796,7 @@ class Check:
         for first in range(0, len(FULL), 3):
             specs.append({"name": f"pairs-{first}", "kind": "pairs", "firsts": list(range(first, min(first + 3, len(FULL)))),
                           "durs": [1, 1, 1, 1], "power": [0, 0], "with_tick": not quick})
+        specs.append({"name": "scripted", "kind": "scripted"})
         for s in range(32 if quick else 128):
             specs.append({"name": f"rand-{seed * 1000 + s}", "kind": "rand", "seed": seed * 1000 + s, "n": 25 if quick else 120, "len": 30})
         return specs
@@ -809,6 +836,12 @@ class Check:
                 one(ops, spec["durs"], spec["power"])
                 if len(out) >= 8:
                     break
+        elif spec["kind"] == "scripted":
+            for name, ops in SCRIPTED.items():
+                for d in range(4):
+                    for power, backup in (((0, 0), True), ((1, 1), True), ((0, 0), False)):
+                        cov.hit("scripted_words", name)
+                        one(ops, [d, d, d, d], power, backup)
         elif spec["kind"] == "pairs":
             for f in spec["firsts"]:
                 for second in FULL:
